@@ -653,6 +653,10 @@ func init() {
 var c16AllocExempt = map[string]string{
 	"embedded/appendable/remoteapp.(*remoteStorageReader).readAtCompressedFrame": "reader of objects in remote (S3) storage: not one of the components the property lists (on-disk logs), and the reader does not know the object size; same shape as the repaired singleapp.ReadAt",
 }
+func init() {
+	c16AllocExempt["cmd/immuadmin/command.nextTx"] = "immuadmin hot-backup restore (seen by the whole-program load only): parses a backup file picked by the operator, not one of the components the property lists"
+}
+
 var c16SignExempt = map[string]string{
 	"embedded/appendable.(*Metadata).GetInt": "accessor: returns the stored integer as is; the consumers validate it (multiapp: C16/metadata-limits; store: tx-pool option validation refuses non-positive limits; tbtree: requiredNodeSize comparison)",
 }
